@@ -272,7 +272,13 @@ class Ctx:
         broken = [o for o in self.obligations if not o["ok"]]
         lines = []
         if violations:
-            p = self.write_replay({"property": self.pid, "kind": "failing-input", "failures": violations[:20],
+            # one replay per distinct key first (so every failing class is visible), then further examples
+            firsts, rest, seenk = [], [], set()
+            for v in violations:
+                (rest if v["key"] in seenk else firsts).append(v)
+                seenk.add(v["key"])
+            violations = firsts[:300] + rest[:20]
+            p = self.write_replay({"property": self.pid, "kind": "failing-input", "failures": violations,
                                    "broken_obligations": broken[:20]}, "input")
             lines.append("VIOLATION property=%s replay=%s" % (self.pid, p))
         elif broken:
